@@ -93,8 +93,9 @@ impl FoldFSM {
         Ok(())
     }
 
-    pub(crate) fn meet_iteration_end(&mut self, data_keeper: &DataKeeper) {
-        self.ctor_queue.current().ctor.before_end(data_keeper);
+    pub(crate) fn meet_iteration_end(&mut self, data_keeper: &DataKeeper) -> FSMResult<()> {
+        self.ctor_queue.current()?.ctor.before_end(data_keeper);
+        Ok(())
     }
 
     pub(crate) fn meet_back_iterator(&mut self, data_keeper: &mut DataKeeper) -> FSMResult<()> {
@@ -104,7 +105,7 @@ impl FoldFSM {
             ctor,
             prev_lore,
             current_lore,
-        } = self.ctor_queue.current();
+        } = self.ctor_queue.current()?;
 
         if !back_traversal_started {
             ctor.maybe_before_end(data_keeper);
@@ -119,7 +120,7 @@ impl FoldFSM {
                 ctor,
                 prev_lore,
                 current_lore,
-            } = self.ctor_queue.current();
+            } = self.ctor_queue.current()?;
 
             ctor.after_start(data_keeper);
             apply_fold_lore_after(data_keeper, prev_lore, current_lore)?;
